@@ -250,6 +250,47 @@ def _guarded_nonempty(fn, node) -> bool:
     return False
 
 
+def r9_flatten(run: Run, rt):
+    """_flatten_list unfolds its argument completely: every scalar at any nesting depth appears once, in order, whatever stands
+    in front of a nested list (engine F on small nested shapes)"""
+    from ..finite import Evaluator, AV, Unknown, AbsRaise
+
+    def leaf(i):
+        return AV('str', text='other', val=f'L{i}')
+
+    def build(shape, counter):
+        if shape == 's':
+            counter[0] += 1
+            return leaf(counter[0])
+        return AV('list', items=tuple(build(x, counter) for x in shape))
+    shapes = {'scalars only': ['s', 's'], 'rows of an area': [['s', 's'], ['s']], 'scalar before an area': ['s', [['s', 's'], ['s']]],
+              'area before a scalar': [[['s'], ['s']], 's'], 'two areas': [[['s', 's']], [['s'], ['s']]], 'empty': [],
+              'empty row inside': [[], ['s'], 's'], 'three levels': ['s', [['s', ['s', 's']]], 's']}
+    for cp in rt.copies():
+        fn = cp.members.get('_flatten_list')
+        if fn is None:
+            run.bad('C11.R9', f'_flatten_list[{cp.label}]', 'missing', 'the unfolding helper does not exist', loc=cp.path)
+            continue
+        for name, shape in shapes.items():
+            cnt = [0]
+            arg = build(shape, cnt)
+            want = [f'L{i}' for i in range(1, cnt[0] + 1)]
+            ev = Evaluator(cp.members, max_depth=10)
+            construct = f'_flatten_list[{cp.label}]/{name}'
+            try:
+                res = ev.call_method('_flatten_list', [arg])
+            except Unknown as u:
+                raise AnalysisError('C11.R9', f'{construct}: the abstraction cannot follow the helper ({u})')
+            except AbsRaise as r_:
+                run.bad('C11.R9', construct, f'raises:{r_.exc}', f'_flatten_list raises {r_.exc} on {name}', loc=cp.loc(fn))
+                continue
+            got = [x.val if x.kind == 'str' else f'<{x.kind}>' for x in (res.items or ())] if res.kind == 'list' else None
+            run.check(got == want, 'C11.R9', construct, 'not-unfolded',
+                      f'_flatten_list on the shape "{name}" {shape} returns {got}; every scalar must appear once, in order, with no '
+                      f'nested list left (a nested list is then dropped by the numeric filter and its cells are not folded)',
+                      fact=f'{len(want)} leaves in order', loc=cp.loc(fn))
+
+
 def run(run: Run):
     src = get_source()
     g = get_grammar(src)
@@ -279,6 +320,9 @@ def run(run: Run):
     _src = _gs()
     _borrow(run, 'C11.R8', _c08.r1, _src, _grt(_src), _gcg(_src))
     _borrow(run, 'C11.R8', _c08.r4, _src, _grt(_src))
+    run.rule('C11.R9', 'the argument list is unfolded completely whatever the order of scalars and areas')
+    run.guard('C11.R9', r9_flatten, run, rt)
+    run.floor('C11.R9', 16)
     run.floor('C11.R8', 50)
     run.floor('C11.R6', 5)
     from . import c02
